@@ -17,6 +17,7 @@ VERIF_MSGS = [
     ('possible division by zero', 'div-by-zero'),
     ('possible bit shift underflow/overflow', 'shift-overflow'),
     ('assertion failed', 'assert'),
+    ('requires not satisfied', 'assert'),      # the `requires` of an `assert .. by (..) requires ..` proof hint
     ('invariant not satisfied at end of loop body', 'loop-invariant-end'),
     ('invariant not satisfied before loop', 'loop-invariant-entry'),
     ('loop invariant not satisfied', 'loop-invariant'),
